@@ -60,7 +60,7 @@ Proof. apply Rgt_not_eq. apply sqrt_lt_R0. lra. Qed.
 
 (* three-roll pass: gap -> inscribed circle diameter -> gap *)
 Lemma three_gap_icd_roundtrip icd gp :
-  g' "has_set_or_cached" "inscribed_circle_diameter" = true ->
+  g' "has_set" "inscribed_circle_diameter" = true ->
   resolve rho g chain_ThreeRollPass__inscribed_circle_diameter = CVal icd ->
   resolve (upd rho "inscribed_circle_diameter" icd) g' chain_ThreeRollPass__gap = CVal gp ->
   gp = rho "gap".
